@@ -248,6 +248,44 @@ def run_case(ctx, case, rng, unknown_default, collect=True):
     return term, desc
 
 
+def unique_probe(ctx, rng, npr):
+    """unique=True with a categorical target: the graph lives on the de-duplicated rows (np.unique order) and must be re-weighted with
+    the labels OF THOSE rows, i.e. equal the supervised graph of a fit on the de-duplicated data with the correspondingly selected labels"""
+    for rep in range(3 if ctx.tier == "quick" else 12):
+        n0 = rng.randint(24, 40); dim = rng.randint(2, 4)
+        nblob = rng.randint(2, 4)
+        centers = npr.normal(size=(nblob, dim)) * 4
+        blob = npr.randint(0, nblob, size=n0)
+        X0 = np.round((centers[blob] + npr.normal(size=(n0, dim))) * 4) / 4          # exactly representable rows
+        y0 = npr.randint(0, rng.randint(2, 5), size=n0).astype(np.int64)
+        y0[npr.random(n0) < rng.choice([0.0, 0.2])] = -1
+        dup = npr.choice(n0, size=rng.randint(4, 9), replace=False)
+        X = np.vstack([X0, X0[dup]]).astype(np.float32); y = np.concatenate([y0, y0[dup]])
+        perm = npr.permutation(len(y)); X, y = X[perm], y[perm]
+        # rows of X0 may coincide by chance: make labels a function of the row
+        seen = {}
+        for i, r in enumerate(X.tolist()):
+            y[i] = seen.setdefault(tuple(r), y[i])
+        w = rng.choice([0.5, 0.5, 0.9, 1.0]); k = rng.randint(4, 9)
+        kw = dict(n_neighbors=k, n_epochs=0, init="random", random_state=1, target_weight=w)
+        desc = dict(api="UMAP(unique=True).fit(X, y)", X=X, y=y, k=k, w=w)
+        try:
+            m = umap.UMAP(unique=True, **kw).fit(X, y)
+            index = np.unique(X, axis=0, return_index=True)[1]
+            ref = umap.UMAP(**kw).fit(X[index], y[index])
+        except Exception as e:
+            ctx.fail("UMAP.fit(X,y,unique):raises", "%s: %s" % (type(e).__name__, e), desc); continue
+        A, B = canon(m.graph_), canon(ref.graph_)
+        ctx.evaluations += 1
+        ctx.tag(("unique_probe", X.tobytes(), y.tobytes(), w, k), ["unique_with_duplicate_rows"])
+        if A.shape != B.shape:
+            ctx.fail("UMAP.fit(X,y,unique).graph_:shape", "graph_ has shape %r for %d distinct rows" % (A.shape, len(index)), desc); continue
+        Dm = abs(A - B)
+        if (Dm.max() if Dm.nnz else 0.0) > 1e-6 or ((A != 0) != (B != 0)).nnz:
+            ctx.fail("UMAP.fit(X,y,unique).graph_:labels_misaligned", "with unique=True the supervised graph differs from the supervised graph of the de-duplicated "
+                     "data with the labels of those rows: max |diff| %.3g" % (Dm.max() if Dm.nnz else 0.0), desc)
+
+
 def _phase(ctx, name, t0):
     import time
     ctx.extra.setdefault("phase_s", {})[name] = round(time.time() - t0, 1)
@@ -295,6 +333,7 @@ def run(ctx):
         out = run_case(ctx, case, rng, unknown_default)
         if out is not None:
             terms.append(out[0]); cases.append(out[1])
+    unique_probe(ctx, rng, npr)
     t0 = _phase(ctx, "implementation+oracle", t0)
     shard = 15
     hdr = ("From Coq Require Import List ZArith PrimFloat. From UV Require Import Num FNum M_supervised V_supervised.\n"
